@@ -1,7 +1,7 @@
 PROP = {
     "id": "C23",
     "theorem_modules": ["Verif.Properties.C23"],
-    "min_theorems": 6,
+    "min_theorems": 7,
     "required_theorems": [
         "Verif.Properties.C23.health_invariant",
         "Verif.Properties.C23.step_preserves",
@@ -19,13 +19,20 @@ PROP = {
                   "remove + deep-remove + insert, destroy = deep removal) keeps every slab referenced exactly once and "
                   "nothing else referenced, from the empty ledger, for all histories. Tie: stream `health` runs generated "
                   "histories over nested resources, dictionaries, arrays crossing inlining thresholds, references, moves "
-                  "between accounts, overwrites, copies and aborts on the real runtime (both engines, atree validation off "
+                  "between accounts, overwrites, copies, aborts, optional-typed elements / fields / dictionary values / "
+                  "storage paths holding immutable values too large to be stored inline (strings of 200-1500 characters, "
+                  "integers of 300-1200 bytes) that are read back through a reference, copied and stored again (same "
+                  "array, other resource / account, field, dictionary, path), dictionaries with string keys over the "
+                  "inline limit and single-entry removals through a reference, and read-everything transactions, "
+                  "on the real runtime (both engines, atree validation off "
                   "as in production and on); after every transaction a fresh runtime.Storage over the ledger loads every "
                   "slab register, decodes every stored value and runs Storage.CheckHealth; the model predicts which "
                   "transactions commit and that the ledger is healthy.",
     "level_note": "Not a theorem about atree: slab encoding, splitting, inlining and atree's bookkeeping are trusted; a missed "
                   "deep removal in the Go code is found by the health check on the stream, not by the proof. Acyclicity and "
-                  "'nothing held at commit' are not proved for all histories (the driver checks them per history).",
+                  "'nothing held at commit' are not proved for all histories (the driver checks them per history). Immutable "
+                  "values (strings, integers) and the Int arrays of the data dictionaries are not containers of the protocol "
+                  "model: for those transactions the model only predicts commit / failure, the health oracle judges the ledger.",
     "assumptions": ["slab identity abstracts from the address part of slab IDs (a transfer to another account is the identity "
                     "on the pointer structure)"],
     "trusted_base": ["onflow/atree (CheckStorageHealth is the oracle)", "Go harness cmd/vharness/stream_health.go",
